@@ -2130,12 +2130,12 @@ func parseForeignContent(p *parser) bool {
 			p.acknowledgeSelfClosingTag()
 		}
 	case EndTagToken:
-		if strings.EqualFold(p.oe[len(p.oe)-1].Data, p.tok.Data) {
-			p.oe = p.oe[:len(p.oe)-1]
-			return true
-		}
 		for i := len(p.oe) - 1; i >= 0; i-- {
 			if strings.EqualFold(p.oe[i].Data, p.tok.Data) {
+				if i == 0 {
+					// Fragment case: never pop the root of the stack of open elements.
+					return true
+				}
 				p.oe = p.oe[:i]
 				return true
 			}
